@@ -17,6 +17,9 @@ private:
 	static constexpr unsigned int ll = 15;
 
 	uint64_t pfx_of(uint64_t k, unsigned int d) {
+		// A prefix of zero nibbles is empty; shifting a 64-bit value by 64 is undefined.
+		if(!d)
+			return 0;
 		return k & (uint64_t(-1) << (64 - d * 4));
 	}
 
